@@ -160,7 +160,7 @@ func (w *World) project(ctx sdk.Context) St {
 			Sp: protoName(a.SourceId.ProtocolId), Sc: a.SourceId.CounterpartyId,
 			Dp: protoName(a.DestinationId.ProtocolId), Dc: a.DestinationId.CounterpartyId,
 			Denom: a.Denom,
-			In:    toInt(a.AmountDispatched.Incoming, "stats in"), Out: toInt(a.AmountDispatched.Outgoing, "stats out"),
+			In:    capInt(a.AmountDispatched.Incoming), Out: capInt(a.AmountDispatched.Outgoing),
 		})
 	}
 	for _, c := range g.DispatcherGenesis.DispatchedCounts {
@@ -186,11 +186,34 @@ func (w *World) project(ctx sdk.Context) St {
 	return st
 }
 
+// capInt converts an amount that is only compared for "larger than before / positive" (never used
+// in arithmetic by the specification); values beyond TLC's range are capped.
+func capInt(i math.Int) int64 {
+	if i.IsNil() {
+		return 0
+	}
+	if !i.IsInt64() || i.Int64() > maxTLCInt {
+		return maxTLCInt
+	}
+	return i.Int64()
+}
+
+// digitsOf renders a non-negative amount as decimal digits (exact, for the BigNat arithmetic).
+func digitsOf(i math.Int) []int64 {
+	out := []int64{}
+	for _, ch := range i.String() {
+		if ch >= '0' && ch <= '9' {
+			out = append(out, int64(ch-'0'))
+		}
+	}
+	return out
+}
+
 // orbAll returns every balance of the orbiter account (all denoms, incl. vouchers).
 func (w *World) orbAll(ctx sdk.Context) []DenomAmt {
 	out := []DenomAmt{}
 	for _, c := range w.app.BankKeeper.GetAllBalances(ctx, w.acct["orb"]) {
-		out = append(out, DenomAmt{D: c.Denom, A: toInt(c.Amount, "orbiter balance")})
+		out = append(out, DenomAmt{D: c.Denom, A: capInt(c.Amount)})
 	}
 	return out
 }
